@@ -35,6 +35,14 @@ def run(res, tier, replay):
                 if rng.random() < 0.8: d, b2 = oablib.damage(rng, pt, 28), base
                 else: d, b2 = pt, base[:rng.randrange(len(base) + 1)]
                 lines.append(oablib.model_line_patch(d, b2)); scns.append(oablib.scn_patch(d, b2, bs)); meta.append((lab + " damaged", None))
+    # directed: a patch block that only drops base data (target size 0) whose source size is exactly a power of two, so that the
+    # reference data fills the LZX window to the last byte; between two ordinary blocks, at several buffer sizes
+    from vlib import oabfmt
+    for k in ([17] if tier == "quick" else [17, 18, 19]):
+        for ss in ((1 << k), (1 << k) - 1):
+            pt, base, plain = oabfmt.build_patch(rng, [(0, 1000), (ss, 0), (4096, 20000)])
+            for bs in ([4096, 16] if tier == "quick" else [16, 17, 4096, 65536]):
+                lines.append(oablib.model_line_patch(pt, base)); scns.append(oablib.scn_patch(pt, base, bs)); meta.append(("patch drop-block source=%d buf=%d" % (ss, bs), plain))
     rc, mo, err = vlib.run_lines(mexe, ["oab"], lines, timeout=3000)
     trs = scenario.run_scenarios(iexe, scns, timeout_each=60)
     diffs = []; nbad = 0
